@@ -1,1 +1,477 @@
-/-! # C16 — property theorems (not built yet) -/
+import PysphVerif.Lemmas.InletOutlet
+/-!
+# C16 — inlets and outlets move each particle across exactly once
+
+Property theorems about `Model/InletOutlet.lean`, for every state, every zone
+(any refpoint, normal, length, tolerance), every number type carrying the
+operations the code uses, every `props_to_copy` mask and default values.
+Lists are particle arrays; `l₁.Perm l₂` ("the same particles up to slot
+order") is how "exactly once / nothing created, duplicated or lost" is said.
+-/
+set_option linter.unusedSectionVars false
+set_option linter.unusedSimpArgs false
+
+namespace PysphVerif.Props.C16
+open PysphVerif.InletOutlet List
+
+variable {α : Type} [Add α] [Sub α] [Mul α] [Neg α] [LT α] [DecidableLT α]
+  [OfNat α 1] [OfNat α 2]
+
+/-- the inlet / fluid / outlet array as `IOEvaluate` leaves it (only the working
+properties `disp`, `ioid` change) -/
+def inletEval (zn : Zone α) (s : State α) : List (Particle α) := s.inlet.map (evalOne zn zn.len)
+def fluidEval (zn : Zone α) (s : State α) : List (Particle α) := s.fluid.map (evalOne zn zn.big)
+def outletEval (zn : Zone α) (s : State α) : List (Particle α) := s.outlet.map (evalOne zn zn.len)
+
+/-- the inlet particles that left the inlet zone on the fluid side: in the
+real-particle view, zone id 0 -/
+def crossing (zn : Zone α) (s : State α) : List (Particle α) :=
+  (realView (inletEval zn s)).filter (ioidIs 0)
+
+/-- the fluid particles beyond the outlet plane: real-particle view, zone id 1 -/
+def leaving (zn : Zone α) (s : State α) : List (Particle α) :=
+  (realView (fluidEval zn s)).filter (ioidIs 1)
+
+/-- recycling of one inlet particle -/
+def recycle (zn : Zone α) (p : Particle α) : Particle α := if ioidIs 0 p then shiftUp zn p else p
+
+/-! ## inlet (base `InletBase.update`; hybrid `Inlet.update` shares the body) -/
+
+theorem inletBody_spec (zn : Zone α) (dF : Particle α) (s s' : State α)
+    (h : inletBody zn dF s = some s') :
+    s'.fluid = extractInto Mask.all dF (inletEval zn s)
+        (whereFrom (ioidIs 0) 0 (realView (inletEval zn s))) (fluidEval zn s) ∧
+    s'.inlet = (realView (inletEval zn s)).map (recycle zn)
+        ++ (inletEval zn s).drop (nReal (inletEval zn s)) ∧
+    s'.outlet = s.outlet ∧ s'.ghostOut = s.ghostOut ∧
+    s'.urefIn = s.urefIn ∧ s'.urefFluid = s.urefFluid ∧
+    (match s.ghostIn with
+     | none => s'.ghostIn = none
+     | some g => ∃ g2, modifyAt (shiftDown zn)
+         (whereFrom (ioidIs 0) 0 (realView (inletEval zn s))) g = some g2 ∧
+         s'.ghostIn = some g2) := by
+  unfold inletBody at h
+  simp only [modifyAt_self] at h
+  cases hg : s.ghostIn with
+  | none =>
+    rw [hg] at h; simp only at h; cases h
+    exact ⟨rfl, rfl, rfl, rfl, rfl, rfl, rfl⟩
+  | some g =>
+    rw [hg] at h; simp only at h
+    split at h
+    · cases h
+    · rename_i g2 hg2
+      cases h
+      exact ⟨rfl, rfl, rfl, rfl, rfl, rfl, g2, hg2, rfl⟩
+
+/-- **A particle leaving the inlet zone appears exactly once in the fluid with
+its properties copied**: after the update the fluid array is, up to slot
+order, the old fluid array plus one whole-record copy of every crossing inlet
+particle — nothing else is created, duplicated or lost. -/
+theorem inlet_copy_exactly_once_per_crossing (zn : Zone α) (dF : Particle α) (s s' : State α)
+    (h : inletBody zn dF s = some s') :
+    s'.fluid.Perm (fluidEval zn s ++ crossing zn s) := by
+  rw [(inletBody_spec zn dF s s' h).1]
+  have := extractInto_perm Mask.all dF (ioidIs 0) (inletEval zn s) (fluidEval zn s)
+  have e : copyInto Mask.all dF = id := funext (fun p => copyInto_all dF p)
+  rw [e, List.map_id] at this
+  exact this
+
+/-- **… while its inlet original is recycled one zone length upstream**: the
+inlet array keeps every slot; exactly the crossing particles are translated by
+`+length·normal`, everything else (other particles, other properties) stays. -/
+theorem inlet_recycled_one_length (zn : Zone α) (dF : Particle α) (s s' : State α)
+    (h : inletBody zn dF s = some s') :
+    s'.inlet = (realView (inletEval zn s)).map (recycle zn)
+        ++ (inletEval zn s).drop (nReal (inletEval zn s)) :=
+  (inletBody_spec zn dF s s' h).2.1
+
+/-- the inlet never gains or loses a particle -/
+theorem inlet_count_constant (zn : Zone α) (dF : Particle α) (s s' : State α)
+    (h : inletBody zn dF s = some s') : s'.inlet.length = s.inlet.length := by
+  rw [inlet_recycled_one_length zn dF s s' h, List.length_append, List.length_map,
+    realView_length, List.length_drop]
+  have := nReal_le_length (inletEval zn s)
+  simp only [inletEval, List.length_map] at this ⊢
+  omega
+
+/-- the ghost of the inlet is shifted by `-length·normal` in exactly the slots
+whose inlet particle was recycled (needs the ghost array to cover the view) -/
+theorem inlet_ghost_recycled (zn : Zone α) (dF : Particle α) (s s' : State α)
+    (g : List (Particle α)) (hg : s.ghostIn = some g) (hlen : s.inlet.length ≤ g.length)
+    (h : inletBody zn dF s = some s') :
+    s'.ghostIn = some (List.zipWith (fun p q => if ioidIs 0 p then shiftDown zn q else q)
+        (realView (inletEval zn s)) (g.take (nReal (inletEval zn s)))
+        ++ g.drop (nReal (inletEval zn s))) := by
+  have hs := (inletBody_spec zn dF s s' h).2.2.2.2.2.2
+  rw [hg] at hs
+  obtain ⟨g2, hg2, hs'⟩ := hs
+  rw [hs']
+  have hn : nReal (inletEval zn s) ≤ g.length := by
+    have h1 := nReal_le_length (inletEval zn s)
+    have h2 : (inletEval zn s).length = s.inlet.length := by simp [inletEval]
+    omega
+  rw [modifyAt_other (ioidIs 0) (shiftDown zn) (inletEval zn s) g g2 hn hg2]
+
+/-- the inlet update does not touch the outlet side -/
+theorem inlet_nothing_else_changes (zn : Zone α) (dF : Particle α) (s s' : State α)
+    (h : inletBody zn dF s = some s') :
+    s'.outlet = s.outlet ∧ s'.ghostOut = s.ghostOut ∧ s'.urefIn = s.urefIn ∧
+    s'.urefFluid = s.urefFluid :=
+  let t := inletBody_spec zn dF s s' h
+  ⟨t.2.2.1, t.2.2.2.1, t.2.2.2.2.1, t.2.2.2.2.2.1⟩
+
+/-- without a ghost array the inlet update never raises; with one it raises
+only if a selected index lies beyond the ghost's real-particle view -/
+theorem inlet_no_ghost_succeeds (zn : Zone α) (dF : Particle α) (s : State α)
+    (hg : s.ghostIn = none) : ∃ s', inletBody zn dF s = some s' := by
+  unfold inletBody
+  simp only [modifyAt_self, hg]
+  exact ⟨_, rfl⟩
+
+/-- an update at an inactive stage changes nothing -/
+theorem inactive_stage_is_identity (zn : Zone α) (m : Mask) (dF dO dG : Particle α) (s : State α) :
+    inletUpdate zn dF false s = some s ∧ outletUpdate zn m dO false s = some s ∧
+    mirrorOutletUpdate zn m dO dG false s = some s := ⟨rfl, rfl, rfl⟩
+
+/-- hybrid `Inlet.update`: the same bookkeeping on the same arrays; only the
+fluid's `uref` constant is averaged first -/
+theorem hybrid_inlet_same_bookkeeping (half : α) (zn : Zone α) (dF : Particle α) (s s' : State α)
+    (h : hybridInletUpdate half zn dF true s = some s') :
+    s'.fluid.Perm (fluidEval zn s ++ crossing zn s) ∧
+    s'.inlet = (realView (inletEval zn s)).map (recycle zn)
+        ++ (inletEval zn s).drop (nReal (inletEval zn s)) ∧
+    s'.outlet = s.outlet ∧ s'.urefFluid = half * (s.urefIn + s.urefFluid) := by
+  unfold hybridInletUpdate at h
+  simp only [if_true] at h
+  have h1 := inlet_copy_exactly_once_per_crossing zn dF _ s' h
+  have h2 := inlet_recycled_one_length zn dF _ s' h
+  have h3 := inlet_nothing_else_changes zn dF _ s' h
+  exact ⟨h1, h2, h3.1, h3.2.2.2⟩
+
+/-! ## outlet (base `OutletBase.update`) -/
+
+/-- the outlet array after the arrivals, before the far-end deletion -/
+def outletMid (zn : Zone α) (m : Mask) (dO : Particle α) (s : State α) : List (Particle α) :=
+  extractInto m dO (fluidEval zn s) (whereFrom (ioidIs 1) 0 (realView (fluidEval zn s)))
+    (outletEval zn s)
+
+/-- the outlet particles deleted at the far end: real-particle view, zone id 2 -/
+def deleted (zn : Zone α) (m : Mask) (dO : Particle α) (s : State α) : List (Particle α) :=
+  (realView (outletMid zn m dO s)).filter (ioidIs 2)
+
+theorem outletBody_spec (zn : Zone α) (m : Mask) (dO : Particle α) (s s' : State α)
+    (h : outletBody zn m dO s = some s') :
+    removeParticles (whereFrom (ioidIs 1) 0 (realView (fluidEval zn s))) (fluidEval zn s)
+      = some s'.fluid ∧
+    removeParticles (whereFrom (ioidIs 2) 0 (realView (outletMid zn m dO s))) (outletMid zn m dO s)
+      = some s'.outlet ∧
+    s'.inlet = s.inlet ∧ s'.ghostIn = s.ghostIn ∧ s'.ghostOut = s.ghostOut ∧
+    s'.urefIn = s.urefIn ∧ s'.urefFluid = s.urefFluid := by
+  unfold outletBody at h
+  simp only at h
+  split at h
+  · cases h
+  · rename_i fluid2 hf
+    split at h
+    · cases h
+    · rename_i outlet3 ho
+      cases h
+      exact ⟨hf, ho, rfl, rfl, rfl, rfl, rfl⟩
+
+/-- **A fluid particle crossing the outlet plane moves exactly once to the
+outlet array** (fluid side): the old fluid array is, up to order, the new
+fluid array plus the leaving particles — they are gone from the fluid, nothing
+else is. -/
+theorem outlet_move_exactly_once_fluid (zn : Zone α) (m : Mask) (dO : Particle α) (s s' : State α)
+    (h : outletBody zn m dO s = some s') :
+    (s'.fluid ++ leaving zn s).Perm (fluidEval zn s) :=
+  removeParticles_perm (ioidIs 1) _ _ (outletBody_spec zn m dO s s' h).1
+
+/-- (outlet side) the outlet array after the update plus what was deleted at
+its far end is, up to order, the old outlet array plus exactly one copy
+(`props_to_copy` from the particle, the rest the outlet's defaults) of every
+leaving fluid particle. -/
+theorem outlet_move_exactly_once (zn : Zone α) (m : Mask) (dO : Particle α) (s s' : State α)
+    (h : outletBody zn m dO s = some s') :
+    (s'.outlet ++ deleted zn m dO s).Perm
+      (outletEval zn s ++ (leaving zn s).map (copyInto m dO)) :=
+  (removeParticles_perm (ioidIs 2) _ _ (outletBody_spec zn m dO s s' h).2.1).trans
+    (extractInto_perm m dO (ioidIs 1) (fluidEval zn s) (outletEval zn s))
+
+/-- **A particle leaving the far end of the outlet zone is deleted**: every
+deleted particle was in the outlet's real-particle view with zone id 2, and no
+such particle survives in the view's image: the survivors and the deleted
+partition the outlet array. -/
+theorem outlet_delete_far (zn : Zone α) (m : Mask) (dO : Particle α) (s s' : State α)
+    (h : outletBody zn m dO s = some s') :
+    (∀ p ∈ deleted zn m dO s, p ∈ realView (outletMid zn m dO s) ∧ p.ioid = 2) ∧
+    (s'.outlet ++ deleted zn m dO s).Perm (outletMid zn m dO s) := by
+  refine ⟨?_, removeParticles_perm (ioidIs 2) _ _ (outletBody_spec zn m dO s s' h).2.1⟩
+  intro p hp
+  have := List.mem_filter.mp hp
+  exact ⟨this.1, by simpa [ioidIs] using this.2⟩
+
+/-- the outlet update does not touch the inlet side -/
+theorem outlet_nothing_else_changes (zn : Zone α) (m : Mask) (dO : Particle α) (s s' : State α)
+    (h : outletBody zn m dO s = some s') :
+    s'.inlet = s.inlet ∧ s'.ghostIn = s.ghostIn ∧ s'.ghostOut = s.ghostOut ∧
+    s'.urefIn = s.urefIn ∧ s'.urefFluid = s.urefFluid :=
+  (outletBody_spec zn m dO s s' h).2.2
+
+/-- the base outlet update never raises -/
+theorem outlet_succeeds (zn : Zone α) (m : Mask) (dO : Particle α) (s : State α) :
+    ∃ s', outletBody zn m dO s = some s' := by
+  unfold outletBody
+  obtain ⟨f2, hf⟩ := removeParticles_isSome (ioidIs 1) (s.fluid.map (evalOne zn zn.big))
+  simp only [hf]
+  obtain ⟨o3, ho⟩ := removeParticles_isSome (ioidIs 2)
+    (extractInto m dO (s.fluid.map (evalOne zn zn.big))
+      (whereFrom (ioidIs 1) 0 (realView (s.fluid.map (evalOne zn zn.big))))
+      (s.outlet.map (evalOne zn zn.len)))
+  simp only [ho]
+  exact ⟨_, rfl⟩
+
+/-! ## mirror `Outlet.update` -/
+
+/-- what the mirror outlet appends to the outlet array -/
+def mirrorArrivals (zn : Zone α) (m : Mask) (dO : Particle α) (s : State α) : List (Particle α) :=
+  if (whereFrom (ioidIs 1) 0 (realView (fluidEval zn s))).length = 0 then []
+  else realView (align ((gather (whereFrom (ioidIs 1) 0 (realView (fluidEval zn s)))
+      (fluidEval zn s)).map (copyInto m { dO with tag := 0 })))
+
+def mirrorMid (zn : Zone α) (m : Mask) (dO : Particle α) (s : State α) : List (Particle α) :=
+  addParticles (mirrorArrivals zn m dO s) (outletEval zn s)
+
+def mirrorDeleted (zn : Zone α) (m : Mask) (dO : Particle α) (s : State α) : List (Particle α) :=
+  (realView (mirrorMid zn m dO s)).filter (ioidIs 2)
+
+theorem mirrorOutletBody_spec (zn : Zone α) (m : Mask) (dO dG : Particle α) (s s' : State α)
+    (h : mirrorOutletBody zn m dO dG s = some s') :
+    removeParticles (whereFrom (ioidIs 1) 0 (realView (fluidEval zn s))) (fluidEval zn s)
+      = some s'.fluid ∧
+    removeParticles (whereFrom (ioidIs 2) 0 (realView (mirrorMid zn m dO s))) (mirrorMid zn m dO s)
+      = some s'.outlet ∧
+    s'.inlet = s.inlet ∧ s'.ghostIn = s.ghostIn ∧
+    s'.urefIn = s.urefIn ∧ s'.urefFluid = s.urefFluid := by
+  unfold mirrorOutletBody at h
+  simp only at h
+  split at h
+  · cases h
+  · split at h
+    · cases h
+    · rename_i fluid2 hf
+      split at h
+      · cases h
+      · rename_i outlet3 ho
+        split at h
+        · cases h; exact ⟨hf, ho, rfl, rfl, rfl, rfl⟩
+        · split at h
+          · cases h
+          · cases h; exact ⟨hf, ho, rfl, rfl, rfl, rfl⟩
+
+/-- mirror family, fluid side: the leaving particles are gone from the fluid,
+nothing else is -/
+theorem mirror_outlet_move_exactly_once_fluid (zn : Zone α) (m : Mask) (dO dG : Particle α)
+    (s s' : State α) (h : mirrorOutletBody zn m dO dG s = some s') :
+    (s'.fluid ++ leaving zn s).Perm (fluidEval zn s) :=
+  removeParticles_perm (ioidIs 1) _ _ (mirrorOutletBody_spec zn m dO dG s s' h).1
+
+theorem addParticles_perm (given l : List (Particle α)) :
+    (addParticles given l).Perm (l ++ given) := by
+  unfold addParticles
+  split
+  · exact align_perm _
+  · exact List.Perm.refl _
+
+theorem copyInto_tag0_local (m : Mask) (dO p : Particle α) (hp : isLocal p = true) :
+    isLocal (copyInto m { dO with tag := 0 } p) = true := by
+  unfold isLocal at hp ⊢
+  unfold copyInto
+  cases hm : m.tag <;> simp [hm] at * <;> exact hp
+
+/-- mirror family, outlet side: provided the leaving particles are Local (they
+are whenever the fluid array is aligned), the outlet gains exactly one copy of
+each and loses exactly what is deleted at the far end. -/
+theorem mirror_outlet_move_exactly_once (zn : Zone α) (m : Mask) (dO dG : Particle α)
+    (s s' : State α) (h : mirrorOutletBody zn m dO dG s = some s')
+    (hloc : ∀ p ∈ leaving zn s, isLocal p = true) :
+    (s'.outlet ++ mirrorDeleted zn m dO s).Perm
+      (outletEval zn s ++ (leaving zn s).map (copyInto m { dO with tag := 0 })) := by
+  have h1 := removeParticles_perm (ioidIs 2) _ _ (mirrorOutletBody_spec zn m dO dG s s' h).2.1
+  refine h1.trans ((addParticles_perm _ _).trans (List.Perm.append_left _ ?_))
+  unfold mirrorArrivals
+  rw [gather_where_realView]
+  split
+  · rename_i h0
+    have : (realView (fluidEval zn s)).filter (ioidIs 1) = [] := by
+      rw [whereFrom_length] at h0
+      exact List.eq_nil_of_length_eq_zero h0
+    simp [leaving, this]
+  · -- every arrival is Local, so the real view of the aligned temporary array is all of it
+    have hall : ∀ q ∈ (leaving zn s).map (copyInto m { dO with tag := 0 }), isLocal q = true := by
+      intro q hq
+      obtain ⟨p, hp, rfl⟩ := List.mem_map.mp hq
+      exact copyInto_tag0_local m dO p (hloc p hp)
+    have := realView_align_perm ((leaving zn s).map (copyInto m { dO with tag := 0 }))
+    rw [List.filter_eq_self.mpr hall] at this
+    exact this
+
+/-! ## histories -/
+
+/-- one inlet/outlet pair: zones, default values of fluid / outlet / outlet-ghost
+arrays, `props_to_copy`, the `0.5` of the hybrid family -/
+structure Cfg (α : Type) where
+  zin : Zone α
+  zout : Zone α
+  dF : Particle α
+  dO : Particle α
+  dG : Particle α
+  mask : Mask
+  half : α
+
+/-- whatever happens to the particles between two update calls (integrator
+stages, other equations, a user callback): an arbitrary slot-wise change of
+every property of every array — displacement fields of any size included -/
+structure Motion (α : Type) where
+  inlet : Nat → Particle α → Particle α
+  ghostIn : Nat → Particle α → Particle α
+  fluid : Nat → Particle α → Particle α
+  outlet : Nat → Particle α → Particle α
+  ghostOut : Nat → Particle α → Particle α
+
+def Motion.apply (mv : Motion α) (s : State α) : State α :=
+  { s with inlet := s.inlet.mapIdx mv.inlet,
+           ghostIn := s.ghostIn.map (fun g => g.mapIdx mv.ghostIn),
+           fluid := s.fluid.mapIdx mv.fluid,
+           outlet := s.outlet.mapIdx mv.outlet,
+           ghostOut := s.ghostOut.map (fun g => g.mapIdx mv.ghostOut) }
+
+inductive Op (α : Type) where
+  | move (mv : Motion α)
+  | inlet (active : Bool)          -- InletBase.update (four families)
+  | hybridInlet (active : Bool)    -- hybrid Inlet.update
+  | outlet (active : Bool)         -- OutletBase.update (four families)
+  | mirrorOutlet (active : Bool)   -- mirror Outlet.update
+
+/-- the account the property speaks of: how many particles entered the fluid
+through the inlet, how many left it through the outlet plane — counted on the
+state *before* each update by the geometric criterion, not by the bookkeeping -/
+structure Acct where
+  entered : Nat
+  left : Nat
+
+def stepOp (c : Cfg α) (op : Op α) (sa : State α × Acct) : Option (State α × Acct) :=
+  match op with
+  | .move mv => some (mv.apply sa.1, sa.2)
+  | .inlet act => (inletUpdate c.zin c.dF act sa.1).map (fun s' =>
+      (s', { sa.2 with entered := sa.2.entered + if act then (crossing c.zin sa.1).length else 0 }))
+  | .hybridInlet act => (hybridInletUpdate c.half c.zin c.dF act sa.1).map (fun s' =>
+      (s', { sa.2 with entered := sa.2.entered + if act then (crossing c.zin sa.1).length else 0 }))
+  | .outlet act => (outletUpdate c.zout c.mask c.dO act sa.1).map (fun s' =>
+      (s', { sa.2 with left := sa.2.left + if act then (leaving c.zout sa.1).length else 0 }))
+  | .mirrorOutlet act => (mirrorOutletUpdate c.zout c.mask c.dO c.dG act sa.1).map (fun s' =>
+      (s', { sa.2 with left := sa.2.left + if act then (leaving c.zout sa.1).length else 0 }))
+
+/-- a history: any sequence of moves and update calls; `none` = an update raised -/
+def run (c : Cfg α) : List (Op α) → State α × Acct → Option (State α × Acct)
+  | [], sa => some sa
+  | op :: ops, sa => (stepOp c op sa).bind (run c ops)
+
+theorem step_count (c : Cfg α) (op : Op α) (sa sa' : State α × Acct)
+    (h : stepOp c op sa = some sa') :
+    sa'.1.fluid.length + sa'.2.left + sa.2.entered
+      = sa.1.fluid.length + sa'.2.entered + sa.2.left ∧
+    sa'.1.inlet.length = sa.1.inlet.length := by
+  obtain ⟨s, a⟩ := sa
+  cases op with
+  | move mv =>
+    simp only [stepOp, Option.some.injEq] at h
+    subst h
+    simp [Motion.apply]
+    omega
+  | inlet act =>
+    simp only [stepOp, Option.map_eq_some_iff] at h
+    obtain ⟨s', hs, rfl⟩ := h
+    cases act with
+    | false => simp only [inletUpdate, Bool.false_eq_true, if_false, Option.some.injEq] at hs
+               subst hs; simp; omega
+    | true =>
+      simp only [inletUpdate, if_true] at hs
+      have hp := (inlet_copy_exactly_once_per_crossing c.zin c.dF s s' hs).length_eq
+      have hi := inlet_count_constant c.zin c.dF s s' hs
+      simp only [List.length_append, fluidEval, List.length_map] at hp
+      simp [hi]; omega
+  | hybridInlet act =>
+    simp only [stepOp, Option.map_eq_some_iff] at h
+    obtain ⟨s', hs, rfl⟩ := h
+    cases act with
+    | false => simp only [hybridInletUpdate, Bool.false_eq_true, if_false,
+                 Option.some.injEq] at hs
+               subst hs; simp; omega
+    | true =>
+      simp only [hybridInletUpdate, if_true] at hs
+      have hp := (inlet_copy_exactly_once_per_crossing c.zin c.dF _ s' hs).length_eq
+      have hi := inlet_count_constant c.zin c.dF _ s' hs
+      simp only [List.length_append, fluidEval, List.length_map] at hp
+      have hc : (crossing c.zin { s with urefFluid := c.half * (s.urefIn + s.urefFluid) }).length
+          = (crossing c.zin s).length := rfl
+      simp at hi
+      simp [hi]; omega
+  | outlet act =>
+    simp only [stepOp, Option.map_eq_some_iff] at h
+    obtain ⟨s', hs, rfl⟩ := h
+    cases act with
+    | false => simp only [outletUpdate, Bool.false_eq_true, if_false, Option.some.injEq] at hs
+               subst hs; simp; omega
+    | true =>
+      simp only [outletUpdate, if_true] at hs
+      have hp := (outlet_move_exactly_once_fluid c.zout c.mask c.dO s s' hs).length_eq
+      have hi := (outlet_nothing_else_changes c.zout c.mask c.dO s s' hs).1
+      simp only [List.length_append, fluidEval, List.length_map] at hp
+      simp [hi]; omega
+  | mirrorOutlet act =>
+    simp only [stepOp, Option.map_eq_some_iff] at h
+    obtain ⟨s', hs, rfl⟩ := h
+    cases act with
+    | false => simp only [mirrorOutletUpdate, Bool.false_eq_true, if_false,
+                 Option.some.injEq] at hs
+               subst hs; simp; omega
+    | true =>
+      simp only [mirrorOutletUpdate, if_true] at hs
+      have hp := (mirror_outlet_move_exactly_once_fluid c.zout c.mask c.dO c.dG s s' hs).length_eq
+      have hi := (mirrorOutletBody_spec c.zout c.mask c.dO c.dG s s' hs).2.2.1
+      simp only [List.length_append, fluidEval, List.length_map] at hp
+      simp [hi]; omega
+
+theorem run_count (c : Cfg α) (ops : List (Op α)) (sa sa' : State α × Acct)
+    (h : run c ops sa = some sa') :
+    sa'.1.fluid.length + sa'.2.left + sa.2.entered
+      = sa.1.fluid.length + sa'.2.entered + sa.2.left ∧
+    sa'.1.inlet.length = sa.1.inlet.length := by
+  induction ops generalizing sa with
+  | nil => simp only [run, Option.some.injEq] at h; subst h; exact ⟨by omega, rfl⟩
+  | cons op ops ih =>
+    simp only [run, Option.bind_eq_some_iff] at h
+    obtain ⟨mid, h1, h2⟩ := h
+    have a := step_count c op sa mid h1
+    have b := ih mid h2
+    exact ⟨by omega, by omega⟩
+
+/-- **fluid count = initial + entered − left at all times**: after any history
+of moves (arbitrary displacement fields, several particles crossing at once,
+particles crossing and returning) and update calls of any of the update
+classes, at active or inactive stages. -/
+theorem count_conservation (c : Cfg α) (ops : List (Op α)) (s0 s : State α) (a : Acct)
+    (h : run c ops (s0, ⟨0, 0⟩) = some (s, a)) :
+    s.fluid.length + a.left = s0.fluid.length + a.entered := by
+  have := (run_count c ops _ _ h).1
+  simpa using this
+
+/-- the inlet buffer keeps its size through every history (originals are
+recycled, never consumed) -/
+theorem inlet_size_invariant (c : Cfg α) (ops : List (Op α)) (s0 s : State α) (a0 a : Acct)
+    (h : run c ops (s0, a0) = some (s, a)) : s.inlet.length = s0.inlet.length :=
+  (run_count c ops _ _ h).2
+
+end PysphVerif.Props.C16
